@@ -59,16 +59,16 @@ def plan(tier, seed):
 def _plan(tier, seed):
     if tier == 'quick':
         return (shard('history', 160, 6) + shard('boundary', 160, 8) + shard('sweep', 6, 2) + shard('witness', 1, 1)
-                + shard('solutions', 240, 4) + shard('solutions_from', 160, 4))
+                + shard('solutions', 240, 4) + shard('solutions_from', 160, 4) + shard('dilutions', 120, 2))
     return (shard('history', 3000, 20, big=True) + shard('boundary', 4000, 24) + shard('sweep', 60, 6, full=True)
-            + shard('witness', 1, 1) + shard('solutions', 8000, 16) + shard('solutions_from', 6000, 16))
+            + shard('witness', 1, 1) + shard('solutions', 8000, 16) + shard('solutions_from', 6000, 16) + shard('dilutions', 4000, 16))
 
 
 def run_job(job):
     if job['kind'] == 'repo_suite':
         return run_cases(job, repo_suite)
     fn = {'history': history, 'boundary': boundary, 'sweep': sweep, 'witness': witness,
-          'solutions': solutions, 'solutions_from': solutions_from}[job['kind']]
+          'solutions': solutions, 'solutions_from': solutions_from, 'dilutions': dilutions}[job['kind']]
     return run_cases(job, fn)
 
 
@@ -78,6 +78,14 @@ def solutions(rng, case, idx):
     from pv.props.c05 import constructive
     from pv.monitors import M
     M.bucket('C03/solutions/create_solution')
+    constructive(rng, case, idx)
+
+
+def dilutions(rng, case, idx):
+    """dilute and fill_to requests that fit by construction or are pushed across a limit (the generator of C11)."""
+    from pv.props.c11 import constructive
+    from pv.monitors import M
+    M.bucket('C03/solutions/dilute_and_fill_to')
     constructive(rng, case, idx)
 
 
